@@ -548,8 +548,8 @@ class Prop:
               "harness parsers (strict: an unknown line is a harness error), generators and oracle; rdflib term equality. "
               "Quoting/escaping of keys and names is not modelled (two data_ids printing alike, e.g. 1 and '1', collide in DOT; "
               "int keys are proved to print injectively).  Callable Mermaid mappers are exercised only through callables "
-              "equivalent to a template; RDF node_mapper is left at None.  Defects D36 (dot.py), D37 (rdf.py) and D171 "
-              "(mermaid.py: node template overwritten by the edge template) are repaired by fixes/D36.diff, D37.diff, "
+              "equivalent to a template; the RDF node_mapper answers None or False only.  Defects D36 (dot.py), D37 and D172 (rdf.py) and D171 "
+              "(mermaid.py: node template overwritten by the edge template) are repaired by fixes/D36.diff, D37.diff, D172.diff, "
               "D171.diff; the theorems are about the repaired code, the pre-repair behaviour of D36/D37 is kept in the model "
               "under fx=false with refutation theorems."),
         technique="Coq proof about an executable Gallina model + differential correspondence check (vm_compute) + Python oracle",
@@ -926,7 +926,7 @@ CORPUS = [
          nodes=[[0, None, 0, [[1, None, None, []]]], [2, None, "", [[3, None, None, []]]]], starts="all"),
     # a node that shares the system root's data_id: the root's definition must not be repeated (D36 through the Tree API)
     dict(typed=False, univ=["s:a", "s:b"], nodes=[[0, None, None, [[1, None, "__root__", [[0, None, None, []]]]]]], starts="all"),
-    # D37, second form: the RDF node_mapper answers False for a node that has children
+    # D172: the RDF node_mapper answers False for a node that has children
     dict(typed=True, univ=["s:a", "s:b"], nodes=[[0, "k", None, [[1, "k", None, []]]]], starts="all", rdf_skip=[1]),
     # D171: node_mapper and edge_mapper both given as strings
     dict(typed=True, univ=["s:a", "s:b"], nodes=[[0, "k", None, []]], starts="all",
